@@ -331,8 +331,119 @@ func (w *ContWork) Post(out *RunOut) {
 		return
 	}
 	if w.Mode == "c02" && out.End == simrt.EndOK && h.ObsDone {
+		w.checkConservation(out, h)
 		w.checkLinearizable(out, h)
 	}
+}
+
+// checkConservation decides the clause "no element is lost, duplicated or double-counted" for the
+// push/pop containers directly on the concurrent history, without any reference execution: the
+// elements the instance held when the concurrent calls started (read off a fresh instance built
+// the same way), plus every element put in, must equal, as multisets, the elements taken out plus
+// those drained afterwards. Programs containing Clear (which removes an unrecorded set) are left
+// to the linearizability oracle. Unlike that oracle, this one also speaks about a purely
+// sequential loss - it is what the statement says "in particular".
+func (w *ContWork) checkConservation(out *RunOut, h *contHistory) {
+	var in, outOp string
+	switch w.Type {
+	case "heap", "stack":
+		in, outOp = "Push", "Pop"
+	case "queue":
+		in, outOp = "Enqueue", "Dequeue"
+	case "lqueue":
+		// only on histories in which the linked queue can never become empty, whatever the order of the
+		// calls (see below): fewer Dequeue calls than initial elements
+		in, outOp = "Enqueue", "Dequeue"
+	default:
+		// Not the linked variants: there the clause is contradicted by their own sequential behaviour,
+		// which this technique does not judge (C05/C06, not claimed). LStack.Pop hands out the element
+		// BELOW the top (DList.Pop returns a copy of the node before the last one) and the
+		// repository's Example_linkedList pins exactly that; a linked queue that has been emptied keeps
+		// its by-value head node as a phantom zero element, so the next Enqueue lands behind it.
+		return
+	}
+	for _, c := range h.Calls {
+		if c.Op.Op == "Clear" || c.Panic != "" {
+			return
+		}
+	}
+	count := map[string]int{}
+	// what the instance holds at the start
+	start, p := safeObserve(w.newInst(serialCfg(w.Type, w.Cfg)))
+	if p != "" {
+		return
+	}
+	addDrain := func(obs []string, sign int) bool {
+		for _, o := range obs {
+			if strings.HasPrefix(o, "Drain=") {
+				for _, v := range strings.Split(strings.TrimPrefix(o, "Drain="), ",") {
+					v = strings.TrimSpace(strings.TrimSuffix(strings.TrimSpace(v), "ok"))
+					if v != "" && v != "0" {
+						count[v] += sign
+					}
+				}
+				return true
+			}
+		}
+		return false
+	}
+	if !addDrain(start, +1) || !addDrain(h.Observed, -1) {
+		return
+	}
+	if w.Type == "lqueue" {
+		initial := 0
+		for _, o := range start {
+			if strings.HasPrefix(o, "Size=") {
+				fmt.Sscan(strings.TrimPrefix(o, "Size="), &initial)
+			}
+		}
+		deq := 0
+		for _, c := range h.Calls {
+			if c.Op.Op == outOp {
+				deq++
+			}
+		}
+		if deq >= initial {
+			return
+		}
+	}
+	for _, c := range h.Calls {
+		switch c.Op.Op {
+		case in:
+			count[fmt.Sprint(c.Op.A)]++
+		case outOp:
+			// "v" (stack, heap, linked queue: the zero value when empty) or "vok" / "0err" (slice queue)
+			v := c.Res
+			if strings.HasSuffix(v, "err") {
+				continue
+			}
+			v = strings.TrimSpace(strings.TrimSuffix(v, "ok"))
+			if v != "" && v != "0" {
+				count[v]--
+			}
+		case "Delete": // heap: "true ok" removes one element equal to the argument
+			if strings.HasPrefix(c.Res, "true") {
+				count[fmt.Sprint(c.Op.A)]--
+			}
+		}
+	}
+	var lost, dup []string
+	for v, n := range count {
+		if n > 0 {
+			lost = append(lost, fmt.Sprintf("%s x%d", v, n))
+		} else if n < 0 {
+			dup = append(dup, fmt.Sprintf("%s x%d", v, -n))
+		}
+	}
+	if len(lost) == 0 && len(dup) == 0 {
+		out.Count("conservation_checked", 1)
+		return
+	}
+	sort.Strings(lost)
+	sort.Strings(dup)
+	out.Violations = append(out.Violations, Violation{Class: "oracle", Identity: "c02:conservation:" + w.Type,
+		Detail: fmt.Sprintf("elements are not conserved: initial content %v plus the elements put in differ from the elements taken out plus the final content; lost %v, handed out more often than put in %v\n  %s",
+			start, lost, dup, strings.Join(out.History, "\n  "))})
 }
 
 // interleavings enumerates all merges of the task sequences (per-task order preserved), up to limit.
